@@ -61,6 +61,8 @@ func RunParse(t *testing.T, c *Case, s Sched, keepLog bool) *Obs {
 	var sr *gosim.SimReader
 	var br *gosim.SimByteReader
 	var callerBuf *bufio.Reader
+	var pipeFeed, pipeStop func()
+	pipeFired := false
 	switch c.Reader.Kind {
 	case "string":
 		src = c.Src
@@ -87,6 +89,38 @@ func RunParse(t *testing.T, c *Case, s Sched, keepLog bool) *Obs {
 		r := bufio.NewReaderSize(under, 16)
 		src, pr = r, lenPos{len(c.Src), func() int { return r.Buffered() + under.Len() }}
 		callerBuf = r
+	case "pipe":
+		// the read end of an io.Pipe; a feeder goroutine writes the text (up to the fault offset) and then closes
+		// the READ end under the parser (fault) or the write end (clean end of input). Everything is created
+		// inside the bubble (channels made outside it do not block durably).
+		pipeFeed = func() {
+			pr, pw := io.Pipe()
+			src = pr
+			k := c.Reader.FaultAt
+			feedDone := make(chan struct{})
+			go func() {
+				defer close(feedDone)
+				data := c.Src
+				if k >= 0 && k < len(data) {
+					data = data[:k]
+				}
+				if len(data) > 0 {
+					if _, err := pw.Write([]byte(data)); err != nil {
+						return
+					}
+				}
+				if k >= 0 {
+					pipeFired = true
+					pr.Close()
+				} else {
+					pw.Close()
+				}
+			}()
+			pipeStop = func() {
+				pr.Close()
+				<-feedDone
+			}
+		}
 	case "invalid-int":
 		src = 42 // not a supported source type: ParseCommands must fail cleanly
 	case "invalid-nil":
@@ -105,6 +139,10 @@ func RunParse(t *testing.T, c *Case, s Sched, keepLog bool) *Obs {
 	}
 
 	body := func() {
+		if pipeFeed != nil {
+			pipeFeed()
+			defer func() { pipeStop() }()
+		}
 		for call := 0; call < maxCalls; call++ {
 			if call > 0 {
 				if pr == nil || pr.Pos() >= len(c.Src) {
@@ -172,6 +210,10 @@ func RunParse(t *testing.T, c *Case, s Sched, keepLog bool) *Obs {
 			k += "/" + c.Reader.ErrKind
 		}
 		o.Faults = map[string]int{k: 1}
+	}
+	if pipeFired {
+		o.Fired = true
+		o.Faults = map[string]int{"pipe/read-end-closed": 1}
 	}
 	if sr != nil {
 		o.Fired, o.FiredBeforeReturn = sr.Fired > 0, sr.FiredRet
